@@ -205,13 +205,16 @@ def roundTrip (cx : Bool) (be k m hd : Nat) : Int :=
 
 def histOp (cx : Bool) (st : HistState) (op : String) : HistState × Int :=
   let chars := op.toList
-  let kind := String.ofList (chars.take 1)
+  -- upper-case D / U / Q: the same operation issued from a second thread (no difference for the model)
+  let kind0 := String.ofList (chars.take 1)
+  let kind := if kind0 == "D" then "d" else if kind0 == "U" then "u" else if kind0 == "Q" then "q" else kind0
   let slot := (String.ofList ((chars.drop 1).take 1)).toNat?.getD 0
   let desc := st.slots.getD slot (-1)
   if kind == "c" || kind == "f" then
     match (String.ofList (chars.drop 3)).splitOn ":" |>.mapM String.toInt? with
-    | some [be, k, m, hd] =>
-      let (r', res) := st.reg.create (availDefault cx) be k m 0 hd 2
+    | some (be :: k :: m :: hd :: wopt) =>
+      let w : Int := wopt.headD 0
+      let (r', res) := st.reg.create (availDefault cx) be k m w hd 2
       if res > 0 then
         ({ reg := r', slots := st.slots.set slot res,
            shapes := (res, be.toNat, k.toNat, m.toNat, hd.toNat) :: st.shapes.filter (·.1 != res) }, res)
@@ -277,9 +280,9 @@ def stepFault (be op n : String) : String :=
     after a failed call and nothing at the end. -/
 def natData : Bytes := (List.range 97).map fun i => UInt8.ofNat (i * 7 + 1)
 
-def stepNatfail (cx : Bool) (be k m hd mask : String) : String :=
-  match be.toNat?, k.toInt?, m.toInt?, hd.toInt?, mask.toNat? with
-  | some be, some k, some m, some hd, some mask =>
+def stepNatfail (cx : Bool) (be k m hd mask dsel : String) : String :=
+  match be.toNat?, k.toInt?, m.toInt?, hd.toInt?, mask.toNat?, dsel.toNat? with
+  | some be, some k, some m, some hd, some mask, some dsel =>
     match create (availDefault cx) be k m 0 hd 2 with
     | .error e => s!"c={e} held=0 end=0"
     | .ok _ =>
@@ -291,7 +294,9 @@ def stepNatfail (cx : Bool) (be k m hd mask : String) : String :=
         | .ok frags =>
           let fl := (frags.headD []).length
           let surv := (frags.zipIdx.filter fun (_, i) => !mask.testBit i).map (·.1)
-          let dest : Int := ((List.range (k.toNat + m.toNat)).find? fun i => mask.testBit i).getD 0
+          let missing := (List.range (k.toNat + m.toNat)).filter fun i => mask.testBit i
+          -- dsel 0: the lowest missing index is rebuilt, 1: the highest
+          let dest : Int := if dsel == 0 then missing.headD 0 else missing.getLastD 0
           let d := match decode (env false) bk inst surv fl false with
             | .ok out => if out == natData then "0" else "1"
             | .error e => showFail e
@@ -299,7 +304,7 @@ def stepNatfail (cx : Bool) (be k m hd mask : String) : String :=
             | .ok f => if f == frags.getD dest.toNat [] then "0" else "1"
             | .error e => showFail e
           s!"c=0 d={d} r={r} held=0 end=0"
-  | _, _, _, _, _ => "bad-op"
+  | _, _, _, _, _, _ => "bad-op"
 
 def stepAll (cx : Bool) (line : String) : String :=
   match line.trimAscii.toString.splitOn " " with
@@ -307,7 +312,7 @@ def stepAll (cx : Bool) (line : String) : String :=
   | ["fault", be, _, _, _, op, n] => stepFault be op n
   | "pure" :: _ => "same"
   | "conc" :: _ => "ok"
-  | ["natfail", be, k, m, hd, mask] => stepNatfail cx be k m hd mask
+  | ["natfail", be, k, m, hd, mask, dsel] => stepNatfail cx be k m hd mask dsel
   | "args" :: api :: be :: k :: m :: rest => stepArgs cx api be k m rest
   | ["hist", preset, ops] => stepHist cx preset ops
   | _ => step cx line
